@@ -61,7 +61,10 @@ func jnNewJob() *jnJob {
 	return &jnJob{w}
 }
 
-func runC09Join(c *eng.Ctx, next func() (int, bool)) {
+func runC09Join(c *eng.Ctx, next func() (int, bool)) { runJoin(c, "C09", next) }
+
+// runJoin: prop C09 reports a deadlock, prop C13 the same situation as a hang of operations that overlap a Close.
+func runJoin(c *eng.Ctx, prop string, next func() (int, bool)) {
 	for _, life := range []godi.Lifetime{godi.Scoped, godi.Transient} {
 		for _, how := range []string{"scope-close", "parent-close", "provider-close", "context-cancel"} {
 			idx, mine := next()
@@ -69,12 +72,13 @@ func runC09Join(c *eng.Ctx, next func() (int, bool)) {
 				continue
 			}
 			c.R.Begin(idx)
-			jnCase(c, idx, life, how)
+			jnCase(c, prop, idx, life, how)
 		}
 	}
 }
 
-func jnCase(c *eng.Ctx, idx int, life godi.Lifetime, how string) {
+func jnCase(c *eng.Ctx, prop string, idx int, life godi.Lifetime, how string) {
+	hang := map[string]string{"C09": "deadlock", "C13": "hang"}[prop]
 	feat := fmt.Sprintf("close-method-joins-a-worker-that-is-resolving:%s-job:%s", map[godi.Lifetime]string{godi.Scoped: "scoped", godi.Transient: "transient"}[life], how)
 	w := &jnWorld{inCtor: make(chan struct{}), closeEnter: make(chan struct{}), workerDone: make(chan struct{})}
 	jnMu.Lock()
@@ -137,7 +141,7 @@ func jnCase(c *eng.Ctx, idx int, life godi.Lifetime, how string) {
 	go func() { wg.Wait(); close(done) }()
 	if v := awaitOrDiagnose(done, 15*time.Second); !v.Done {
 		if v.Deadlock {
-			c.R.Violation(eng.Violation{Prop: "C09", Clause: "deadlock", Sig: "C09/deadlock:" + feat + ":" + innermostGodiFn(v.Dump), Case: idx, CaseID: feat,
+			c.R.Violation(eng.Violation{Prop: prop, Clause: hang, Sig: prop + "/" + hang + ":" + feat + ":" + innermostGodiFn(v.Dump), Case: idx, CaseID: feat,
 				Detail: fmt.Sprintf("%s: the in-flight resolution and the Close never returned; goroutines stuck inside godi:\n%s", feat, v.Dump)})
 		} else {
 			c.R.Inconclusive(idx, "join case did not finish within the watchdog and no goroutine is provably stuck inside godi")
@@ -146,18 +150,18 @@ func jnCase(c *eng.Ctx, idx int, life godi.Lifetime, how string) {
 		return
 	}
 	if jobErr != nil && !errors.Is(jobErr, godi.ErrScopeDisposed) && !errors.Is(jobErr, godi.ErrProviderDisposed) {
-		c.R.Violation(eng.Violation{Prop: "C09", Clause: "undocumented-error", Sig: "C09/undocumented-error:" + feat, Case: idx, CaseID: feat, Detail: fmt.Sprintf("%s: the resolution that overlapped the Close returned %v", feat, jobErr)})
+		c.R.Violation(eng.Violation{Prop: prop, Clause: "overlap-unexpected-error", Sig: prop + "/overlap-unexpected-error:" + feat, Case: idx, CaseID: feat, Detail: fmt.Sprintf("%s: the resolution that overlapped the Close returned %v", feat, jobErr)})
 	}
 	if closeErr != nil {
-		c.R.Violation(eng.Violation{Prop: "C09", Clause: "undocumented-error", Sig: "C09/undocumented-error:" + feat + ":close", Case: idx, CaseID: feat, Detail: fmt.Sprintf("%s: Close returned %v", feat, closeErr)})
+		c.R.Violation(eng.Violation{Prop: prop, Clause: "closer-unexpected-error", Sig: prop + "/closer-unexpected-error:" + feat + ":close", Case: idx, CaseID: feat, Detail: fmt.Sprintf("%s: Close returned %v", feat, closeErr)})
 	}
 	_ = prov.Close()
 	w.mu.Lock()
 	n := w.jobClosed
 	w.mu.Unlock()
 	if n != 1 {
-		c.R.Violation(eng.Violation{Prop: "C09", Clause: "close-count", Sig: "C09/close-count:" + feat, Case: idx, CaseID: feat, Detail: fmt.Sprintf("%s: the job constructed during the Close was closed %d times by the end", feat, n)})
+		c.R.Violation(eng.Violation{Prop: prop, Clause: "overlap-conservation", Sig: prop + "/overlap-conservation:" + feat, Case: idx, CaseID: feat, Detail: fmt.Sprintf("%s: the job constructed during the Close was closed %d times by the end", feat, n)})
 	}
 	c.R.Count("join_cases", 1)
-	c.R.End(idx, eng.Hash("c09-join", feat), true)
+	c.R.End(idx, eng.Hash("join", prop, feat), true)
 }
